@@ -98,6 +98,89 @@ Definition set_field_value (opts : option field_options) (value : node) (target 
   | _, None => Ok value
   end.
 
+(* ---------- an address-returning PathGetter (yaml.Lookup): where the node it returns lives ---------- *)
+Fixpoint lookup_addr (ps : list part) (n : node) {struct ps} : res (option addr) :=
+  match ps with
+  | [] => Ok (Some [])
+  | p :: ps' =>
+      match p with
+      | PKey name =>
+          match n with
+          | Map kvs =>
+              match find_field name kvs with
+              | Some x => do r <- lookup_addr ps' x; Ok (option_map (cons (index_of_key name kvs)) r)
+              | None => Ok None
+              end
+          | _ => if is_null n then Ok None else Err
+          end
+      | PIdx i =>
+          match n with
+          | Seq es =>
+              match nth_error es i with
+              | Some e => do r <- lookup_addr ps' e; Ok (option_map (cons i) r)
+              | None => Ok None
+              end
+          | _ => if is_null n then Ok None else Err
+          end
+      | PLast =>
+          match n with
+          | Seq es =>
+              match es with
+              | [] => Panic
+              | _ =>
+                  let i := List.length es - 1 in
+                  match nth_error es i with
+                  | Some e => do r <- lookup_addr ps' e; Ok (option_map (cons i) r)
+                  | None => Panic
+                  end
+              end
+          | _ => if is_null n then Panic else Err
+          end
+      | PSel nm v =>
+          match n with
+          | Seq es =>
+              match find_index (sel_match nm v) es with
+              | Some i =>
+                  match nth_error es i with
+                  | Some e => do r <- lookup_addr ps' e; Ok (option_map (cons i) r)
+                  | None => Err
+                  end
+              | None => Ok None
+              end
+          | _ => if is_null n then Ok None else Err
+          end
+      | PBadSel | PNeg | PWild => Err
+      end
+  end.
+
+(* is [a] a proper prefix of [b] *)
+Fixpoint proper_prefix (a b : addr) : bool :=
+  match a, b with
+  | [], _ :: _ => true
+  | i :: a', j :: b' => Nat.eqb i j && proper_prefix a' b'
+  | _, _ => false
+  end.
+(* is [a] a prefix of [b] (possibly equal) *)
+Fixpoint is_prefix (a b : addr) : bool :=
+  match a, b with
+  | [], _ => true
+  | i :: a', j :: b' => Nat.eqb i j && is_prefix a' b'
+  | _, _ => false
+  end.
+
+(* The replacement value. getReplacement returns the LIVE source node unless a source delimiter
+   made a copy: [vs_live] = Some (i, a) says that the value is the node at address a of resource i
+   and follows what is written there; None = a private copy. *)
+Record vstate := mkVS { vs_value : node; vs_live : option (nat * addr) }.
+
+(* after a write at address [h] of the document [doc'] that holds the live source at [sa]:
+   a write at or inside the source shows through; a write that overwrites an ancestor detaches the
+   source (the value keeps its content and is live no more); other writes do not matter *)
+Definition refresh (sa : addr) (h : addr) (value : node) (doc' : node) : node * bool :=
+  if proper_prefix h sa then (value, false)
+  else if is_prefix sa h then (match get_at sa doc' with Some x => x | None => value end, true)
+  else (value, true).
+
 Section Repl.
   Variable parse : string -> option re.
   Variable enc : node -> string.
@@ -105,8 +188,8 @@ Section Repl.
   Variable lsel : string -> list (string * string) -> option bool.
   Variable fuel : nat.
 
-  (* selectSourceNode: index of the unique node one of whose ids is selected *)
-  Fixpoint select_source (sel : resid) (rs : list node) (found : option node) : res node :=
+  (* selectSourceNode: the unique node one of whose ids is selected, with its index *)
+  Fixpoint select_source (sel : resid) (i : nat) (rs : list node) (found : option (nat * node)) : res (nat * node) :=
     match rs with
     | [] => match found with Some n => Ok n | None => Err end
     | n :: t =>
@@ -114,25 +197,39 @@ Section Repl.
         if existsb (fun id => id_selected_by id sel) ids then
           match found with
           | Some _ => Err
-          | None => select_source sel t (Some n)
+          | None => select_source sel (S i) t (Some (i, n))
           end
-        else select_source sel t found
+        else select_source sel (S i) t found
+    end.
+
+  (* is the value getRefinedValue returns the node itself (no copy)? *)
+  Definition refined_is_live (opts : option field_options) : bool :=
+    match opts with
+    | None => true
+    | Some o => String.eqb (fo_delimiter o) ""
     end.
 
   (* getReplacement *)
-  Definition get_replacement (rs : list node) (r : replacement) : res node :=
+  Definition get_replacement (rs : list node) (r : replacement) : res vstate :=
     match rp_source_value r, rp_source r with
     | Some _, Some _ => Err
-    | Some v, None => Ok (Scalar TNone SPlain v)
+    | Some v, None => Ok (mkVS (Scalar TNone SPlain v) None)
     | None, None => Err
     | None, Some src =>
-        do source <- select_source (ss_id src) rs None;
+        do source <- select_source (ss_id src) 0 rs None;
         let fp := if String.eqb (ss_field_path src) "" then gen_default_replacement_field_path
                   else ss_field_path src in
-        do rn <- lookup (parse_path (smarter_path_splitter "."%char fp)) source;
-        match rn with
+        do ra <- lookup_addr (parse_path (smarter_path_splitter "."%char fp)) (snd source);
+        match ra with
         | None => Err
-        | Some x => if nil_or_empty x then Err else refined_value (ss_options src) x
+        | Some a =>
+            match get_at a (snd source) with
+            | None => Err
+            | Some x =>
+                if nil_or_empty x then Err
+                else do v <- refined_value (ss_options src) x;
+                     Ok (mkVS v (if refined_is_live (ss_options src) then Some (fst source, a) else None))
+            end
         end
     end.
 
@@ -170,16 +267,24 @@ Section Repl.
   Definition target_selected (sel : selector) (rej : list selector) (ids : list resid) : bool :=
     existsb (fun id => id_selected_by id (sel_id sel)) ids && negb (contains_reject_id rej ids).
 
-  (* write the value through every hit of one PathMatcher run *)
-  Fixpoint write_hits (opts : option field_options) (value : node) (hits : list hit) (target : node) : res node :=
+  (* write the value through every hit of one PathMatcher run. [live] = the address of the live
+     source node inside THIS document, if it is here; the result carries the value afterwards and
+     whether it is still live. *)
+  Fixpoint write_hits (opts : option field_options) (live : option addr) (value : node) (hits : list hit) (target : node)
+    : res (node * (node * option addr)) :=
     match hits with
-    | [] => Ok target
+    | [] => Ok (target, (value, live))
     | HAt a :: t =>
         do target' <- update_at (set_field_value opts value) a target;
-        write_hits opts value t target'
+        match live with
+        | None => write_hits opts None value t target'
+        | Some sa =>
+            let (v', still) := refresh sa a value target' in
+            write_hits opts (if still then Some sa else None) v' t target'
+        end
     | HDetached x :: t =>
         do _ <- set_field_value opts value x;     (* may fail; never visible *)
-        write_hits opts value t target
+        write_hits opts live value t target
     end.
 
   (* the field paths of a target selector (empty list = the default path) *)
@@ -192,40 +297,68 @@ Section Repl.
     | None => None
     end.
 
+  (* the live value as it reads after the document changed under it (PathMatcher's Create) *)
+  Definition reread (live : option addr) (value : node) (doc : node) : node :=
+    match live with
+    | Some sa => match get_at sa doc with Some x => x | None => value end
+    | None => value
+    end.
+
   (* copyValueToTarget *)
-  Fixpoint copy_value_to_target (opts : option field_options) (value : node) (fps : list string) (target : node)
-    : res node :=
+  Fixpoint copy_value_to_target (opts : option field_options) (live : option addr) (value : node)
+           (fps : list string) (target : node) : res (node * (node * option addr)) :=
     match fps with
-    | [] => Ok target
+    | [] => Ok (target, (value, live))
     | fp :: t =>
         do r <- pm parse enc nonstr (create_kind opts value) fuel (smarter_path_splitter "."%char fp) target;
         match snd r with
         | [] => Err
         | hits =>
-            do target' <- write_hits opts value hits (fst r);
-            copy_value_to_target opts value t target'
+            do w <- write_hits opts live (reread live value (fst r)) hits (fst r);
+            copy_value_to_target opts (snd (snd w)) (fst (snd w)) t (fst w)
         end
     end.
 
-  (* one target selector over one node *)
-  Definition apply_target_to_node (value : node) (ts : target_selector) (sel : selector) (n : node) : res node :=
+  (* one target selector over one node (number [i] of the list) *)
+  Definition apply_target_to_node (vs : vstate) (ts : target_selector) (sel : selector) (i : nat) (n : node)
+    : res (node * vstate) :=
     do ids <- make_res_ids n;
     do ok <- select_by_anno_label n sel (ts_reject ts);
-    if negb ok then Ok n
+    if negb ok then Ok (n, vs)
     else if target_selected sel (ts_reject ts) ids
-         then copy_value_to_target (ts_options ts) value (target_field_paths ts) n
-         else Ok n.
+         then
+           let here := match vs_live vs with
+                       | Some (j, sa) => if Nat.eqb i j then Some sa else None
+                       | None => None
+                       end in
+           do w <- copy_value_to_target (ts_options ts) here (vs_value vs) (target_field_paths ts) n;
+           let live' := match vs_live vs, here with
+                        | Some (j, _), Some _ => match snd (snd w) with Some sa => Some (j, sa) | None => None end
+                        | l, _ => l
+                        end in
+           Ok (fst w, mkVS (fst (snd w)) live')
+         else Ok (n, vs).
+
+  Fixpoint apply_target_to_nodes (vs : vstate) (ts : target_selector) (sel : selector) (i : nat) (rs : list node)
+    : res (list node * vstate) :=
+    match rs with
+    | [] => Ok ([], vs)
+    | n :: t =>
+        do r <- apply_target_to_node vs ts sel i n;
+        do rt <- apply_target_to_nodes (snd r) ts sel (S i) t;
+        Ok (fst r :: fst rt, snd rt)
+    end.
 
   (* applyReplacement *)
-  Fixpoint apply_replacement (value : node) (tss : list target_selector) (rs : list node) : res (list node) :=
+  Fixpoint apply_replacement (vs : vstate) (tss : list target_selector) (rs : list node) : res (list node) :=
     match tss with
     | [] => Ok rs
     | ts :: t =>
         match ts_select ts with
         | None => Err
         | Some sel =>
-            do rs' <- mapM (apply_target_to_node value ts sel) rs;
-            apply_replacement value t rs'
+            do r <- apply_target_to_nodes vs ts sel 0 rs;
+            apply_replacement (snd r) t (fst r)
         end
     end.
 
@@ -240,8 +373,8 @@ Section Repl.
             match rp_source_value r, rp_source r with
             | None, None => Err
             | _, _ =>
-                do value <- get_replacement rs r;
-                do rs' <- apply_replacement value tss rs;
+                do vs <- get_replacement rs r;
+                do rs' <- apply_replacement vs tss rs;
                 replacement_filter t rs'
             end
         end
